@@ -453,6 +453,16 @@ func (w *World) Step(st string) bool {
 	if w.infra != "" {
 		return false
 	}
+	if strings.Contains(st, "/") {
+		// macro step: its parts are executed one after the other and count as one step of a history (e.g. a whole
+		// persistence round "B0/M/Pb/Pe"); it is enabled only if every part is
+		for _, part := range strings.Split(st, "/") {
+			if !w.Step(part) {
+				return false
+			}
+		}
+		return true
+	}
 	switch {
 	case st[0] == 'B':
 		if w.pending != nil || w.closedColl {
